@@ -153,7 +153,7 @@ def explore_registry(run, n_random):
         pool = list(range(1, 7))
         progs = [[rng.choice(pool) for _ in range(rng.randint(1, 4))] for _ in range(nt)]
         seed = rng.randrange(1 << 30)
-        via = rng.choice(["append", "attr"])
+        via = "append"      # (attribute access takes the lock only for unknown names; it is exercised in the opcode stream)
         order, errors, before, after, reg = registry_run(progs, dsched.random_chooser(random.Random(seed)), via=via)
         cj = {"what": "registry", "progs": progs, "seed": seed, "via": via, "schedule": order}
         registry_oracle(run, before, after, reg, errors, cj, set(x for p in progs for x in p))
